@@ -1113,14 +1113,18 @@ class Connection(ConnectionEventsTarget, inspection.Inspectable["Inspector"]):
 
         self.__in_begin = True
 
-        if self._has_events or self.engine._has_events:
-            self.dispatch.begin(self)
-
         try:
-            self.engine.dialect.do_begin(self.connection)
-        except BaseException as e:
-            self._handle_dbapi_exception(e, None, None, None, None)
+            if self._has_events or self.engine._has_events:
+                self.dispatch.begin(self)
+
+            try:
+                self.engine.dialect.do_begin(self.connection)
+            except BaseException as e:
+                self._handle_dbapi_exception(e, None, None, None, None)
         finally:
+            # also reached when a "begin" event handler raises, e.g. one
+            # that emits its own BEGIN; otherwise autobegin would stay
+            # disabled for the rest of this Connection's life
             self.__in_begin = False
 
     def _rollback_impl(self) -> None:
